@@ -33,7 +33,7 @@ ASSUMPTIONS = [
     "a DataPath is compared by file content (it is re-rooted in the save directory by design)",
 ]
 MIN_CLASSES = {
-    "quick": {"writer:params": 500, "writer:state_dict": 500, "writer:save": 500, "writer:serialize": 500, "reader:instance": 600, "meta-flag": 500, "init-task": 150, "pre-task": 200, "datapath": 300, "two-data-files": 200, "cycle": 300},
+    "quick": {"writer:params": 500, "writer:state_dict": 500, "writer:save": 500, "writer:serialize": 500, "reader:instance": 600, "meta-flag": 500, "init-task": 100, "pre-task": 200, "datapath": 300, "two-data-files": 200, "cycle": 300},
     "thorough": {"datapath": 3000, "init-task": 1500},
 }
 MAX_NODES = {"quick": 6, "thorough": 10}
